@@ -1,0 +1,32 @@
+package common
+
+import (
+	"fmt"
+
+	"github.com/protolambda/ztyp/bitfields"
+	"github.com/protolambda/ztyp/codec"
+)
+
+// ReadBitList deserializes an SSZ bitlist that fills the remaining scope of the reader.
+//
+// It replaces codec.DecodingReader.BitList of ztyp v0.2.2, which bounds the byte length by ceil(bitLimit/8)
+// and therefore refuses a bitlist of exactly bitLimit bits whenever bitLimit is a multiple of 8
+// (the delimiter bit then needs one more byte: bitLimit/8 + 1).
+func ReadBitList(dr *codec.DecodingReader, dst *[]byte, bitLimit uint64) error {
+	if dst == nil {
+		return fmt.Errorf("bitlist destination is nil")
+	}
+	byteLen := dr.Scope()
+	if byteLimit := (bitLimit >> 3) + 1; byteLen > byteLimit {
+		return fmt.Errorf("bitlist is too big: %d bytes, limit is %d (bitlimit %d)", byteLen, byteLimit, bitLimit)
+	}
+	if uint64(cap(*dst)) < byteLen {
+		*dst = make([]byte, byteLen, byteLen)
+	} else {
+		*dst = (*dst)[:byteLen]
+	}
+	if _, err := dr.Read(*dst); err != nil {
+		return err
+	}
+	return bitfields.BitlistCheck(*dst, bitLimit)
+}
